@@ -1,7 +1,10 @@
 /-
   PyodaModel.Text — the modelled subset of the text engine (area "Text", properties C07, C08, C17):
   numeric primitives (`Text/Numeric.lean`), the built-in ISO patterns (`Text/Iso.lean`), the standard
-  library's ISO writers (`Text/PyIso.lean`), and the line-protocol handler.
+  library's ISO writers (`Text/PyIso.lean`), the generic stepped-pattern engine (`Text/PatternCursor`, `Stepped`,
+  `Compile`, `Engine`, `Buckets`, `Delimited`, `WellFormed`; ops `pcur.*`, `pat.*`, `cu.*` in `Text/PatHandle.lean`) for
+  LocalTime, LocalDate, Offset, LocalDateTime (incl. embedded `ld<…>`/`lt<…>` patterns), AnnualDate, Duration and
+  Instant patterns, and the line-protocol handler.
 
   Ops (text arguments are lower-case hex of the UTF-8 encoding, `-` = empty):
     num.pad v n | num.pad2 v | num.pad4 v | num.frac v len scale | num.fract v len scale bufHex   → textHex
